@@ -31,7 +31,8 @@ class FuncInfo:
         self.decorators = decos
         self.is_static = "staticmethod" in decos
         self.is_classmethod = "classmethod" in decos
-        self.is_property = "property" in decos
+        self.is_property = "property" in decos or any(d.split(".")[-1] == "cached_property" for d in decos)
+        self.memo_decorators = [d for d in decos if d.split("(")[0].split(".")[-1] in ("lru_cache", "cache", "cached_property")]
         self.is_setter = any(d.endswith(".setter") for d in decos)
         self.is_abstract = any(d.endswith("abstractmethod") for d in decos)
 
